@@ -2,7 +2,9 @@
 (* Bounded design model for C04.  One behaviour = one delivery of one file:                  *)
 (*   case c = [n, kind, name, hl, fam]  size class (B is the model's block size; gamma maps   *)
 (*           q*B+r to q*4096+r), content class (label for gamma), name class (a row of the    *)
-(*           configured MIME tables, MC_C04_Data), handler list, request family               *)
+(*           configured MIME tables, MC_C04_Data), handler list ("default", "full", and       *)
+(*           "altenc" = default handlers under a second configuration of the tables),         *)
+(*           request family                                                                   *)
 (*           (protocol x TLS; HTTP and WAP families are requested with GET and HEAD)          *)
 (*   Read(k) / Eof   the copy loop; with Schedules = "all" every read-size schedule (short    *)
 (*           reads) is explored, with "full" only full blocks (what a regular file gives)     *)
@@ -22,12 +24,14 @@ ProtoOf(f) == CASE f \in {"G", "Gs"} -> "G" [] f \in {"GP", "GPs"} -> "GP" [] f 
                 [] f = "W" -> "W" [] f = "GEM" -> "GEM" [] f = "SP" -> "SP"
 NullFrame == [headers |-> <<>>, len |-> NoLen, body |-> <<>>]
 
-Cases == [n : SizeClasses(B), kind : Kinds, name : Names, hl : Lists, fam : Fams]
+\* the alternative table configuration ("altenc") varies the TABLES, not the delivery: two sizes, one content class
+Cases == {x \in [n : SizeClasses(B), kind : Kinds, name : Names, hl : Lists, fam : Fams] :
+             x.hl = "altenc" => (x.n \in {1, B + 1} /\ x.kind = "bin")}
 
 Decs(x) == IF x.hl = "full" THEN Decompressors ELSE {}
-IsDec(x) == Decompresses(Row(x.name), Decs(x))
+IsDec(x) == Decompresses(Row(x.hl, x.name), Decs(x))
 EntryFor(x) ==
-    LET e0 == EntryOf(Row(x.name), x.n) IN
+    LET e0 == EntryOf(Row(x.hl, x.name), x.n) IN
     IF IsDec(x) THEN (IF DecSizeStored THEN Decompressed(e0) ELSE [Decompressed(e0) EXCEPT !.size = NoLen]) ELSE e0
 \* what handler.write() produces: the copied bytes, or (decompression) some other byte string
 BodyFor(x, out) == IF IsDec(x) THEN Iota(x.n + 2) ELSE out
@@ -52,7 +56,7 @@ HeadIsGetHeaders ==
     (Done /\ ProtoOf(c.fam) \in {"H", "W"}) =>
         HeadIsGetHeadersF(Frame(ProtoOf(c.fam), "HEAD", EntryFor(c), BodyFor(c, st.out)), fr)
 TypeTruthful ==
-    Done => fr.headers = Headers(ProtoOf(c.fam), [EntryFor(c) EXCEPT !.mime = TableMime(Row(c.name), Decs(c))])
+    Done => fr.headers = Headers(ProtoOf(c.fam), [EntryFor(c) EXCEPT !.mime = TableMime(Row(c.hl, c.name), Decs(c))])
 
 \* WAP conversion: the inverse recovers every line up to trailing white space, whatever the line is
 WAlpha == {"x", "SP", "CR", "VT", "NEL", "LS", "LT", "AMP", "QUOT", "HI", "NUL"}
